@@ -314,7 +314,7 @@ fn one_case(rng: &mut Rng, class: Class, out: &mut CaseOut) {
     let enc_api = gen::api(rng, rate, k, r);
     let poison = rng.chance(1, 2);
     let _p = Poison::new(poison, rng.next_u64());
-    let originals = gen::originals(rng, k, size);
+    let originals = gen::originals_for(rng, rate, k, r, size);
     let desc = format!(
         "k={k} r={r} rate={} size={size} enc={} poison={poison}",
         rate.name(),
